@@ -6,7 +6,7 @@ from bsvc.terms import REAL, INT
 from bsvc.values import Arr
 
 field_hint('VolumeSSAResult.volume', ndim=1, elem=REAL)
-PROPS = ['C11', 'C09', 'C06']
+PROPS = ['C11', 'C09', 'C06', 'C07']
 
 
 @fuc('types', 'Volume.get_volume_step', props=PROPS)
